@@ -106,6 +106,7 @@ fn main() {
                 empty_run: 0,
                 literals_only: false,
                 irregular_258: false,
+                pad_bits: 0,
             };
             let enc = lz77::encode(&plain[..520.min(plain.len())], &p);
             println!("pub const STREAM_3: [u8; {}] = [{}];", enc.len(), enc.iter().map(|b| b.to_string()).collect::<Vec<_>>().join(", "));
